@@ -4,6 +4,7 @@
     proxy <reply>          ServerProxy._request result extraction
     notify <reply>         ServerProxy._request_notify
     mcget <i> <results>    MultiCallIterator[i]
+    mciter/mclist <results>, mcunpack <n> <results>   iteration, list(), unpacking of a MultiCall result
 -/
 import JRV.Driver.Codec
 import JRV.Model.Client
@@ -40,8 +41,33 @@ def mcrunC (toks : List String) : String :=
   | some (v, []) => showResult ((multicallRun v).map PyVal.list)
   | _ => "bad-op"
 
+/-- `mciter <results>`: `ok <list of the values handed out> | done` or `… | err <Class> <arg>` (iteration). -/
+def mciterC (toks : List String) : String :=
+  match readVal toks with
+  | some (.list xs, []) =>
+    match multicallIter xs with
+    | (ys, Option.none) => showResult (.ok (.list ys)) ++ " | done"
+    | (ys, some e) => showResult (.ok (.list ys)) ++ " | " ++ showResult (.error e)
+  | _ => "bad-op"
+
+/-- `mclist <results>`: `list(results)`. -/
+def mclistC (toks : List String) : String :=
+  match readVal toks with
+  | some (.list xs, []) => showResult ((multicallList xs).map PyVal.list)
+  | _ => "bad-op"
+
+/-- `mcunpack <n> <results>`: `a1, …, an = results`. -/
+def mcunpackC (toks : List String) : String :=
+  match toks with
+  | i :: rest =>
+    match i.toNat?, readVal rest with
+    | some n, some (.list xs, []) => showResult ((multicallUnpack xs n).map PyVal.list)
+    | _, _ => "bad-op"
+  | _ => "bad-op"
+
 def clientComponents : List (String × (List String → String)) := [
-  ("cfe", cfeC), ("proxy", proxyC), ("notify", notifyC), ("mcget", mcgetC), ("mcrun", mcrunC)
+  ("cfe", cfeC), ("proxy", proxyC), ("notify", notifyC), ("mcget", mcgetC), ("mcrun", mcrunC),
+  ("mciter", mciterC), ("mclist", mclistC), ("mcunpack", mcunpackC)
 ]
 
 end JRV.Driver
